@@ -4,3 +4,4 @@ pub mod privprops;
 pub mod pubprops;
 pub mod gadgetprops;
 pub mod parsers;
+pub mod encodings;
